@@ -47,18 +47,24 @@ def run(ck):
         refill = int(rng.choice([1, 2, 3, 5, 8, 15, 40, 1500]))
         nv = int(rng.choice([0, 1, 3, 10, 40, 150]))
         f = 0.0 if i % 6 else 0.1
-        method = ['top_vector_agop_on_subset', 'random_pca', 'linear', 'pca', 'rf_criterion', 'random', 'random_agop_on_subset'][i % 7]
+        method = ['top_vector_agop_on_subset', 'random_pca', 'linear', 'pca', 'rf_criterion', 'random', 'random_agop_on_subset', 'random_global_agop'][i % 8]
+        tree_iters = [1, 2][(i // 8) % 2] if method == 'random_global_agop' else 0
+        if tree_iters and (i // 8) % 3 == 2:
+            n = int(rng.integers(6, L + 1))                     # single-leaf tree that is rebuilt
+            refill = int(rng.choice([40, 1500])); nv = 3        # (a refill would apply if the leaf were not the whole tree)
+        if tree_iters:
+            nv = max(nv, 3)                                     # every build is scored on the caller's validation set
         X = xr.make_X('distinct_grid' if i % 2 else 'random', n, d, rng)
         y = xr.make_y(task, X, rng)
         Xv = xr.make_X('random', max(nv, 0), d, rng) + 100.0 * (nv == 0)
         yv = xr.make_y(task, Xv, rng) if nv > 0 else y[:0]
         if nv == 0:
             Xv = Xv[:0]
-        desc = dict(i=i, task=task, n=n, L=L, d=d, refill=refill, nval=nv, f=f, method=method, seed=ck.seed)
+        desc = dict(i=i, task=task, n=n, L=L, d=d, refill=refill, nval=nv, f=f, method=method, tree_iters=tree_iters, seed=ck.seed)
         # proviso of the property: every leaf must end up with a non-empty validation set.
         xr.seed_all(7000 + i + ck.seed)
-        model = xr.xRFM(rfm_params=xr.default_rfm_params(iters=0, reg=1e-2), max_leaf_size=L, split_method=method,
-                        overlap_fraction=f, verbose=False, use_temperature_tuning=False, refill_size=refill)
+        model = xr.xRFM(rfm_params=xr.default_rfm_params(iters=(1 if tree_iters else 0), reg=1e-2), max_leaf_size=L, split_method=method,
+                        overlap_fraction=f, verbose=False, use_temperature_tuning=False, refill_size=refill, n_tree_iters=tree_iters)
         Xt, yt = torch.tensor(X), torch.tensor(y)
         rec = xr.fit_recorded(model, Xt, yt, torch.tensor(Xv), torch.tensor(yv), timeout=120, tolerate_empty_val=True)
         if rec.error is not None:
@@ -66,97 +72,97 @@ def run(ck):
             ck.violation(f'fit did not return ({rec.error}) on {desc}', dict(desc, error=rec.error),
                          key=json.dumps(dict(site='fit', error=rec.error[0])))
             continue
-        root = rec.trees[0]
-        Xroot = root['X']
-        lookup = {Xroot[j].numpy().tobytes(): j for j in range(Xroot.shape[0])}
-        Yenc = rec.rfms and None
-        probs = []
-        leaves = xr.leaves_of(root)
-        # the encoded targets the root received: recover from the leaf fits (y rows are aligned iff they match by index)
-        any_refill = False
-        empty_val = False
-        for lf in leaves:
-            rfm = lf['rfm']
-            Xtr, ytr = rfm.rec_train
-            Xva, yva = rfm.rec_val
-            if rfm.rec_empty_val:
-                empty_val = True
-            kept_rows = [lookup.get(Xtr[p].numpy().tobytes()) for p in range(Xtr.shape[0])]
-            if kept_rows != lf['kept']:
-                probs.append(f"leaf train_indices {lf['kept'][:6]}.. are not the rows of the fitted training matrix {kept_rows[:6]}..")
-            cen = rfm.centers
-            if cen.shape != Xtr.shape or not torch.equal(cen.cpu(), Xtr):
-                probs.append('leaf model centers differ from the training rows it was fitted on')
-            nrouted = lf['nval']
-            if not torch.equal(Xva[:nrouted], lf['Xval']):
-                probs.append('leaf validation set does not start with the routed validation points')
-            moved = [lookup.get(Xva[p].numpy().tobytes()) for p in range(nrouted, Xva.shape[0])]
-            if any(m is None for m in moved):
-                probs.append('leaf validation set contains rows that are neither routed validation points nor training samples')
-                moved = [m for m in moved if m is not None]
-            lf['moved'] = moved
-            any_refill |= len(moved) > 0
-            # statement: at most min(shortfall, 20%) moved; none if routed > refill size or single leaf
-            m_recv = len(lf['ids'])
-            if lf['is_root']:
-                exp = 0
-            elif nrouted > refill:
-                exp = 0
+        for bi, root in enumerate(rec.trees):      # every build: with tree iterations each tree is built 1 + n_tree_iters times
+            Xroot = root['X']
+            lookup = {Xroot[j].numpy().tobytes(): j for j in range(Xroot.shape[0])}
+            Yenc = rec.rfms and None
+            probs = []
+            leaves = xr.leaves_of(root)
+            # the encoded targets the root received: recover from the leaf fits (y rows are aligned iff they match by index)
+            any_refill = False
+            empty_val = False
+            for lf in leaves:
+                rfm = lf['rfm']
+                Xtr, ytr = rfm.rec_train
+                Xva, yva = rfm.rec_val
+                if rfm.rec_empty_val:
+                    empty_val = True
+                kept_rows = [lookup.get(Xtr[p].numpy().tobytes()) for p in range(Xtr.shape[0])]
+                if kept_rows != lf['kept']:
+                    probs.append(f"leaf train_indices {lf['kept'][:6]}.. are not the rows of the fitted training matrix {kept_rows[:6]}..")
+                cen = rfm.centers
+                if cen.shape != Xtr.shape or not torch.equal(cen.cpu(), Xtr):
+                    probs.append('leaf model centers differ from the training rows it was fitted on')
+                nrouted = lf['nval']
+                if not torch.equal(Xva[:nrouted], lf['Xval']):
+                    probs.append('leaf validation set does not start with the routed validation points')
+                moved = [lookup.get(Xva[p].numpy().tobytes()) for p in range(nrouted, Xva.shape[0])]
+                if any(m is None for m in moved):
+                    probs.append('leaf validation set contains rows that are neither routed validation points nor training samples')
+                    moved = [m for m in moved if m is not None]
+                lf['moved'] = moved
+                any_refill |= len(moved) > 0
+                # statement: at most min(shortfall, 20%) moved; none if routed > refill size or single leaf
+                m_recv = len(lf['ids'])
+                if root['kind'] == 'leaf':          # the tree has a single leaf (structural, not the flag the code was passed)
+                    exp = 0
+                elif nrouted > refill:
+                    exp = 0
+                else:
+                    exp = min(refill - nrouted, m_recv // 5)
+                if len(moved) != exp:
+                    probs.append(f'leaf with {m_recv} samples and {nrouted} routed validation points moved {len(moved)} samples, rule says {exp} (refill size {refill})')
+                if set(moved) & set(lf['kept']):
+                    probs.append(f'samples {sorted(set(moved) & set(lf["kept"]))[:5]} are both centers and leaf validation')
+                if sorted(moved + lf['kept']) != sorted(lf['ids']):
+                    probs.append(f'leaf received {m_recv} samples but centers+moved account for {len(moved) + len(lf["kept"])} (dropped or foreign samples)')
+                # targets aligned: y rows of kept/moved must be the encoded targets of the same original rows.
+                lf['y_by_index'] = {j: ytr[p] for p, j in enumerate(kept_rows) if j is not None}
+                for p, j in enumerate(moved):
+                    lf['y_by_index'][j] = yva[nrouted + p]
+            # cross-leaf target consistency: with exactly-once (or overlap) the encoded target of index j is unique
+            ymap = {}
+            for lf in leaves:
+                for j, v in lf['y_by_index'].items():
+                    if j in ymap and not torch.equal(ymap[j], v):
+                        probs.append(f'sample {j} carries different targets in different leaves')
+                    ymap[j] = v
+            if task.startswith('reg'):
+                for j, v in ymap.items():
+                    if not torch.equal(v.reshape(-1), yt[j].reshape(-1).float()):
+                        probs.append(f'target of sample {j} is misaligned'); break
             else:
-                exp = min(refill - nrouted, m_recv // 5)
-            if len(moved) != exp:
-                probs.append(f'leaf with {m_recv} samples and {nrouted} routed validation points moved {len(moved)} samples, rule says {exp} (refill size {refill})')
-            if set(moved) & set(lf['kept']):
-                probs.append(f'samples {sorted(set(moved) & set(lf["kept"]))[:5]} are both centers and leaf validation')
-            if sorted(moved + lf['kept']) != sorted(lf['ids']):
-                probs.append(f'leaf received {m_recv} samples but centers+moved account for {len(moved) + len(lf["kept"])} (dropped or foreign samples)')
-            # targets aligned: y rows of kept/moved must be the encoded targets of the same original rows.
-            lf['y_by_index'] = {j: ytr[p] for p, j in enumerate(kept_rows) if j is not None}
-            for p, j in enumerate(moved):
-                lf['y_by_index'][j] = yva[nrouted + p]
-        # cross-leaf target consistency: with exactly-once (or overlap) the encoded target of index j is unique
-        ymap = {}
-        for lf in leaves:
-            for j, v in lf['y_by_index'].items():
-                if j in ymap and not torch.equal(ymap[j], v):
-                    probs.append(f'sample {j} carries different targets in different leaves')
-                ymap[j] = v
-        if task.startswith('reg'):
-            for j, v in ymap.items():
-                if not torch.equal(v.reshape(-1), yt[j].reshape(-1).float()):
-                    probs.append(f'target of sample {j} is misaligned'); break
-        else:
-            enc = model.class_converter_.labels_to_numerical(yt)
-            for j, v in ymap.items():
-                if not torch.equal(v.reshape(-1), enc[j].reshape(-1)):
-                    probs.append(f'target of sample {j} is misaligned'); break
-        used = [j for lf in leaves for j in lf['kept'] + lf['moved']]
-        if f == 0.0:
-            if sorted(used) != list(range(n)):
-                from collections import Counter
-                c = Counter(used)
-                dup = [j for j, k in c.items() if k > 1][:5]
-                miss = [j for j in range(n) if j not in c][:5]
-                probs.append(f'not exactly once: duplicated {dup} missing {miss} (n={n}, used {len(used)})')
-        else:
-            if set(used) != set(range(n)):
-                probs.append('with overlap: some sample is in no leaf')
-        nsplit = sum(1 for nd in xr.walk(root) if nd['kind'] != 'leaf')
-        ck.case(dict(desc, leaves=[(len(l['ids']), len(l['kept']), len(l['moved']), l['nval']) for l in leaves]),
-                nontrivial=(nsplit >= 1 and any_refill), sample=(nsplit >= 2 and any_refill))
-        ck.count(f'splits={min(nsplit, 8)}'); ck.count(f'refill={refill}'); ck.count(f'nval={nv}'); ck.count(f'task={task}')
-        ck.count('any_refill' if any_refill else 'no_refill')
-        if empty_val:
-            ck.count('fits with an empty leaf validation set (outside the proviso; scored on own rows)')
-        for p_ in dict.fromkeys(probs):
-            ck.violation(p_ + f' on {desc}', dict(desc, problem=p_, leaves=[dict(recv=l['ids'], kept=l['kept'], moved=l['moved'], nval=l['nval']) for l in leaves]),
-                         key=json.dumps(dict(site='accounting', problem=p_.split(' ')[0:4])))
-        if f == 0.0:
-            cases.append((i, f'rtree_okb true {refill} {coq_rtree(root)}'))
-        else:
-            parts = [f"leaf_okb {coq_bool(l['is_root'])} {refill} {nl(l['ids'])} {nl(l['kept'])} {nl(l['moved'])} {l['nval']}" for l in leaves]
-            cases.append((i, ' && '.join(parts)))
-        meta[i] = desc
+                enc = model.class_converter_.labels_to_numerical(yt)
+                for j, v in ymap.items():
+                    if not torch.equal(v.reshape(-1), enc[j].reshape(-1)):
+                        probs.append(f'target of sample {j} is misaligned'); break
+            used = [j for lf in leaves for j in lf['kept'] + lf['moved']]
+            if f == 0.0:
+                if sorted(used) != list(range(n)):
+                    from collections import Counter
+                    c = Counter(used)
+                    dup = [j for j, k in c.items() if k > 1][:5]
+                    miss = [j for j in range(n) if j not in c][:5]
+                    probs.append(f'not exactly once: duplicated {dup} missing {miss} (n={n}, used {len(used)})')
+            else:
+                if set(used) != set(range(n)):
+                    probs.append('with overlap: some sample is in no leaf')
+            nsplit = sum(1 for nd in xr.walk(root) if nd['kind'] != 'leaf')
+            ck.case(dict(desc, leaves=[(len(l['ids']), len(l['kept']), len(l['moved']), l['nval']) for l in leaves]),
+                    nontrivial=(nsplit >= 1 and any_refill), sample=(nsplit >= 2 and any_refill))
+            ck.count(f'splits={min(nsplit, 8)}'); ck.count(f'refill={refill}'); ck.count(f'nval={nv}'); ck.count(f'task={task}')
+            ck.count('any_refill' if any_refill else 'no_refill')
+            if empty_val:
+                ck.count('fits with an empty leaf validation set (outside the proviso; scored on own rows)')
+            for p_ in dict.fromkeys(probs):
+                ck.violation(p_ + f' on {desc}', dict(desc, problem=p_, leaves=[dict(recv=l['ids'], kept=l['kept'], moved=l['moved'], nval=l['nval']) for l in leaves]),
+                             key=json.dumps(dict(site='accounting', problem=p_.split(' ')[0:4])))
+            if f == 0.0:
+                cases.append((f'{i}.{bi}', f'rtree_okb true {refill} {coq_rtree(root)}'))
+            else:
+                parts = [f"leaf_okb {coq_bool(root['kind'] == 'leaf')} {refill} {nl(l['ids'])} {nl(l['kept'])} {nl(l['moved'])} {l['nval']}" for l in leaves]
+                cases.append((f'{i}.{bi}', ' && '.join(parts)))
+            meta[f'{i}.{bi}'] = dict(desc, build=bi)
     res = ck.run_bool_cases('acct', HEADER, cases, shard=25)
     bad = [meta[k] for k, v in res.items() if v is not True]
     ck.obligation(f'correspondence: recorded trees of {len(cases)} real fits pass the Coq local checker rtree_okb', 'correspondence',
